@@ -25,6 +25,10 @@ func init() {
 			}
 			fmt.Fprintf(&sb, "def %s : Nat := %s\n", n, LeanInt(v))
 		}
+		_, tsd, err := ParseFile(repo, "pkg/encoding/tsd.go")
+		if err != nil {
+			return "", err
+		}
 		_, enc, err := ParseFile(repo, "pkg/encoding/encoding.go")
 		if err != nil {
 			return "", err
@@ -47,10 +51,6 @@ func init() {
 			sb.WriteString("\n" + d)
 		}
 
-		_, tsd, err := ParseFile(repo, "pkg/encoding/tsd.go")
-		if err != nil {
-			return "", err
-		}
 		_, dbp, err := ParseFile(repo, "pkg/encoding/delta_bit_packing.go")
 		if err != nil {
 			return "", err
@@ -67,6 +67,13 @@ func init() {
 		if err != nil {
 			return "", err
 		}
+		// TSDDecoder.Next: is `startTime+idx <= endTime` evaluated in uint16 (wraps at 65536) or in int?
+		wide, err := nextCompareIsWide(FindFunc(tsd, "TSDDecoder", "Next"))
+		if err != nil {
+			return "", err
+		}
+		sb.WriteString("\n/-- `TSDDecoder.Next`: true when `startTime+idx <= endTime` is computed in `int`, false when in `uint16` -/\n")
+		fmt.Fprintf(&sb, "def tsdNextWideCompare : Bool := %v\n", wide)
 		sb.WriteString("\n-- call orders of the methods whose step order the models mirror\n")
 		for _, m := range []struct {
 			f          *ast.File
@@ -104,6 +111,14 @@ func init() {
 			}
 			sb.WriteString("def " + m.lean + " : List String := " + LeanStrList(CallSeq(fd)) + "\n")
 		}
+		_, bw, err := ParseFile(repo, "pkg/bit/writer.go")
+		if err != nil {
+			return "", err
+		}
+		_, br, err := ParseFile(repo, "pkg/bit/reader.go")
+		if err != nil {
+			return "", err
+		}
 		// fields assigned by the Reset methods (which fields a reused object re-initialises)
 		sb.WriteString("\n-- fields assigned (in source order) by the methods that re-arm a reused object\n")
 		for _, m := range []struct {
@@ -111,6 +126,11 @@ func init() {
 			recv, name string
 			lean       string
 		}{
+			{bw, "Writer", "Reset", "bitWriterResetFields"},
+			{bw, "Writer", "Flush", "bitWriterFlushFields"},
+			{bw, "Writer", "WriteBit", "bitWriterWriteBitFields"},
+			{bw, "Writer", "WriteByte", "bitWriterWriteByteFields"},
+			{br, "Reader", "Reset", "bitReaderResetFields"},
 			{xor, "XOREncoder", "Reset", "xorEncoderResetFields"},
 			{xor, "XORDecoder", "Reset", "xorDecoderResetFields"},
 			{tsd, "TSDEncoder", "RestWithStartTime", "tsdEncoderRestWithStartTimeFields"},
@@ -126,6 +146,43 @@ func init() {
 		}
 		return sb.String(), nil
 	}})
+}
+
+// nextCompareIsWide inspects the first `if` of TSDDecoder.Next: `a+b <= c`; wide = both summands are int(...) conversions.
+func nextCompareIsWide(fd *ast.FuncDecl) (bool, error) {
+	if fd == nil {
+		return false, fmt.Errorf("TSDDecoder.Next not found")
+	}
+	for _, st := range fd.Body.List {
+		is, ok := st.(*ast.IfStmt)
+		if !ok {
+			continue
+		}
+		be, ok := is.Cond.(*ast.BinaryExpr)
+		if !ok || be.Op != token.LEQ {
+			return false, fmt.Errorf("TSDDecoder.Next: condition is not `a+b <= c`")
+		}
+		sum, ok := be.X.(*ast.BinaryExpr)
+		if !ok || sum.Op != token.ADD {
+			return false, fmt.Errorf("TSDDecoder.Next: condition is not `a+b <= c`")
+		}
+		isInt := func(e ast.Expr) bool {
+			ce, ok := e.(*ast.CallExpr)
+			if !ok {
+				return false
+			}
+			id, ok := ce.Fun.(*ast.Ident)
+			return ok && (id.Name == "int" || id.Name == "int64" || id.Name == "uint32" || id.Name == "int32" || id.Name == "uint64")
+		}
+		switch {
+		case isInt(sum.X) && isInt(sum.Y) && isInt(be.Y):
+			return true, nil
+		case !isInt(sum.X) && !isInt(sum.Y) && !isInt(be.Y):
+			return false, nil
+		}
+		return false, fmt.Errorf("TSDDecoder.Next: mixed-width comparison")
+	}
+	return false, fmt.Errorf("TSDDecoder.Next: no if statement")
 }
 
 // thresholdSwitch reads `switch { case v < C1: return R1; ...; default: return Rd }`.
@@ -199,6 +256,15 @@ func assignedFields(fd *ast.FuncDecl) []string {
 			return true
 		}
 		for i, l := range as.Lhs {
+			suffix := ""
+			if ix, ok := l.(*ast.IndexExpr); ok { // recv.field[k] = ...
+				if lit, ok := ix.Index.(*ast.BasicLit); ok {
+					suffix = "[" + lit.Value + "]"
+				} else {
+					suffix = "[]"
+				}
+				l = ix.X
+			}
 			se, ok := l.(*ast.SelectorExpr)
 			if !ok {
 				continue
@@ -206,7 +272,10 @@ func assignedFields(fd *ast.FuncDecl) []string {
 			if id, ok := se.X.(*ast.Ident); !ok || id.Name != recv {
 				continue
 			}
-			name := se.Sel.Name
+			name := se.Sel.Name + suffix
+			if as.Tok != token.ASSIGN && as.Tok != token.DEFINE {
+				name += as.Tok.String()
+			}
 			if i < len(as.Rhs) {
 				if sl, ok := as.Rhs[i].(*ast.SliceExpr); ok && sl.Low == nil && sl.High != nil {
 					if lit, ok := sl.High.(*ast.BasicLit); ok && lit.Value == "0" {
